@@ -64,6 +64,7 @@ type obj struct {
 	content string // what "equal" is about
 	size    int
 	norepl  bool // exported-services
+	cre     uint64
 }
 
 func contentVal(c string) int {
@@ -116,7 +117,7 @@ var policyOps = &kindOps{
 		_, ps := mustState(vp.State(sec).ACLPolicyList(nil, nil))
 		out := make([]obj, 0, len(ps))
 		for _, p := range ps {
-			out = append(out, obj{id: p.ID, mod: p.ModifyIndex, hash: "x" + hex.EncodeToString(p.Hash), content: p.Rules, size: p.EstimateSize()})
+			out = append(out, obj{id: p.ID, mod: p.ModifyIndex, hash: "x" + hex.EncodeToString(p.Hash), content: p.Rules, size: p.EstimateSize(), cre: p.CreateIndex})
 		}
 		return out
 	},
@@ -183,7 +184,7 @@ var tokenOps = &kindOps{
 		_, ts := mustState(vp.State(sec).ACLTokenList(nil, false, true, "", "", "", nil, nil))
 		out := make([]obj, 0, len(ts))
 		for _, p := range ts {
-			out = append(out, obj{id: p.AccessorID, mod: p.ModifyIndex, hash: "x" + hex.EncodeToString(p.Hash), content: p.Description, size: p.EstimateSize()})
+			out = append(out, obj{id: p.AccessorID, mod: p.ModifyIndex, hash: "x" + hex.EncodeToString(p.Hash), content: p.Description, size: p.EstimateSize(), cre: p.CreateIndex})
 		}
 		return out
 	},
@@ -871,6 +872,7 @@ func runRounds(run *hx.Run) {
 	}
 	e.reset(policyOps)
 	runNames(run, e)
+	runStale(run, e)
 	run.Extra["real_rounds"] = e.rounds
 	run.Extra["real_rounds_seconds"] = int(time.Since(t0).Seconds())
 	run.Extra["seconds_blocked_in_fetch"] = int(e.blocked.Seconds())
